@@ -321,6 +321,13 @@ func (s *aggqSkel) stmts(list []ast.Stmt) []string {
 			out = append(out, run...)
 			continue
 		}
+		// a run of adjacent simple statements without calls: those that do not touch each other's variables commute
+		// (area_aggq_r4.go); canonical order
+		if n, efs := s.aggqPureRun(list, i); n >= 2 {
+			out = append(out, s.aggqEmitRun(list[i:i+n], efs)...)
+			i += n - 1
+			continue
+		}
 		out = append(out, s.stmt(list[i])...)
 	}
 	return out
@@ -416,6 +423,10 @@ func (s *aggqSkel) stmt(st ast.Stmt) []string {
 				head = "case " + strings.Join(es, ",")
 			}
 			cs = append(cs, head+":"+s.block(cc.Body))
+		}
+		// constant case values, no fallthrough: at most one case matches, whichever is written first
+		if s.aggqSwitchUnordered(x) {
+			aggqSortCanon(cs)
 		}
 		return append(pre, "switch("+tag+"){"+strings.Join(cs, " ")+"}")
 	case *ast.TypeSwitchStmt:
@@ -604,6 +615,7 @@ func aggqExtra(t *tr) string {
 	aggqEmit(&b, t, "newJSONLinesAggregator", "", "NewJSONLinesAggregator", "core/aggregator/jsonlines.go")
 	aggqEmit(&b, t, "newJSONEncoder", "", "NewJSONEncoder", "core/aggregator/jsonlines.go")
 	aggqErrFacts(&b, t)
+	aggqRound4Facts(&b, t)
 
 	// ---- core/datasink
 	{
